@@ -105,15 +105,22 @@ def rule_451(ctx):
                 codes = [c.args[0].value if c.args and isinstance(c.args[0], ast.Constant) else None for n in evaluated(ev) for c in walk_self(n) if is_reply(c, conn)]
                 if codes != ["451"] or out[0] not in ("continue", "fall"):
                     good = False
+            # the try must protect ONE task's result: its innermost enclosing loop iterates the finished tasks and the
+            # result() call is on that loop's variable (a batch-wide try drops the other results of the same wake-up)
             in_loop = False
             q = p.parent.get(t)
             while q is not None and q is not disp:
                 if isinstance(q, (ast.For, ast.While)):
-                    in_loop = True
+                    if isinstance(q, ast.For) and isinstance(q.target, ast.Name):
+                        calls = [c for s_ in t.body for c in walk_self(s_) if isinstance(c, ast.Call) and is_method_call(c, "result")]
+                        in_loop = bool(calls) and all(isinstance(c.func.value, ast.Name) and c.func.value.id == q.target.id for c in calls) \
+                            and not any(isinstance(x, (ast.ListComp, ast.GeneratorExp, ast.SetComp, ast.DictComp, ast.For)) for s_ in t.body for x in ast.walk(s_))
+                    break
                 q = p.parent.get(q)
             ok = ok or (good and in_loop)
-    ctx.ob("C13.451", disp, "dispatcher: PathIOError from task.result() -> one 451, session loop continues", ok,
-           "dispatcher does not map PathIOError of a finished task to exactly one 451 and continue", construct="dispatcher:451")
+    ctx.ob("C13.451", disp, "dispatcher: PathIOError from each finished task's result() -> one 451, the remaining results are still handled", ok,
+           "dispatcher does not map PathIOError of a single finished task to exactly one 451 and continue with the other finished tasks "
+           "(a batch-wide handler drops the results - e.g. the next parsed command - that completed in the same wake-up)", construct="dispatcher:451")
     n = 0
     for mod in ("server.py",):
         for h in ast.walk(p.trees[mod]):
@@ -148,10 +155,28 @@ def rule_nosuccess(ctx):
                 continue
             if pf.backend_after_success is not None:
                 bad = pf.backend_after_success
+            open_backend = []
+            for e in ev:
+                if e[0] == "enter" and _is_backend_file(p, e[1], fn):
+                    open_backend.append(src(e[1]))
+                elif e[0] == "exit" and src(e[1]) in open_backend:
+                    open_backend.remove(src(e[1]))
+                elif e[0] == "stmt" and open_backend:
+                    for c in walk_self(e[1]):
+                        if is_reply(c, conn) and c.args and str(const_values(p, c.args[0], fn)[0] or "")[:1] in ("2", "3"):
+                            bad = c   # the context exit (backend close/flush) still follows this success reply
         ctx.ob("C13.NOSUCCESS", bad if bad is not None else fn, f"{p.qualname(fn)}: no backend access after a success reply", bad is None,
                f"{fn.name}: backend access after a success reply (a failure there would follow the success reply with a 451)",
                construct=f"{fn.name}:backend-after-success")
     ctx.floor("C13.NOSUCCESS", 29, "handlers and workers")
+
+
+def _is_backend_file(p, expr, fn):
+    e = expr
+    if isinstance(e, ast.Name):
+        f, ds = closure_lookup(p, fn, e.id)
+        e = next((v for k, v, _ in ds if k == "assign"), e)
+    return isinstance(e, ast.Call) and isinstance(e.func, ast.Attribute) and e.func.attr == "open" and last_attr(e.func.value) == "path_io"
 
 
 def rule_calls(ctx):
